@@ -256,6 +256,9 @@ def run(prop, tier, seed, spec, known, scratch, only, replay, t0):
         if hr["problems"]:
             for k, n in hr["problems"].items():
                 problems.append("%s: %s (x%d)" % (hr["name"], k, n))
+        if hr.get("inconclusive"):
+            problems.append("%s: %d obligations inconclusive (solver unknown): %s" % (
+                hr["name"], hr["inconclusive"], [r for r in hr.get("reach", []) if r.startswith("inconclusive:")]))
         if hr.get("missing_reach"):
             problems.append("%s: vacuity: markers never reached: %s" % (hr["name"], hr["missing_reach"]))
         if not any(r.startswith("assert:") for r in hr.get("reach", [])) and not meta[hr["name"]].get("no_assert"):
